@@ -9,14 +9,14 @@ import SaModel.Lemmas.Utf8
 import SaModel.Lemmas.C03PXNew
 import SaModel.Lemmas.C03Final
 import SaModel.Lemmas.C10TakePush
-import SaModel.Props.C01
+import SaModel.Props.C01Refine
 /-
 C03 — every produced array is a well-formed Arrow array of the declared field.
 
   C03_wf                 toMarrow ext fields rows = ok arrs → one array per field, each `Spec.WF` for its field and of
                          `rows.length` rows (explicit assumptions on schema / rows / Ext: see the section header there)
   toMarrow_decode_state  the arrays decode to exactly the columns the final builder state holds (every family)
-  toMarrow_decode_partial … which are the documented rows `interpRow` of the records (coverage of R2/R3)
+  (… which are the documented rows `interpRow` of the records: `Props.C01.C01_build_decode`, Props/C01.lean)
 built from the physical layer proved in Lemmas/{Bits,Utf8,FloatBounds,C03*}.lean — `finish_decodeP`/`finish_decode` (the
 finished array means what the state holds), `finish_wf` (it is well formed), the push invariants `push_PX` (offsets,
 UTF-8, view descriptors; no hypotheses) and `push_LR` (value ranges) — and the operational refinement of Props/C01.lean
@@ -468,7 +468,8 @@ With agent-refine's theorems merged (`Build.push_takeRest`, `Props.C01.runRows_r
   rows     `rawOK` (raw key/value call streams alternate; vacuous without `mapRaw`), `SValOK` (an iN/uN/f32/f64 call
            carries a value of that width)
   Ext      `ExtOK` (what the external chrono parsers return fits the column's storage)
-  size     `ViewSmall` (bytes-view buffers below 4 GiB in the final state) -/
+(the former size assumption `ViewSmall` is now derived: the view builders refuse lengths / offsets beyond `i32::MAX`, the
+state invariant `WFB` carries the buffer bound — `Build.WFB_small`) -/
 
 /-- **C03.**  Every array `to_marrow` returns is a well-formed array of its field (`Spec.WF`: data type equal to the
 field's including child names / nullability / metadata / parameters; bitmap present iff nullable with exactly ⌈len/8⌉
@@ -480,7 +481,6 @@ theorem C03_wf (ext : Ext) (fields : List Field) (rows : List SVal) (arrs : List
     (hsafe : ∀ root0, newRoot fields = .ok root0 → Safe root0)
     (hext : Lemmas.C03.ExtOK ext)
     (hraw : ∀ x ∈ rows, Build.rawOK x = true) (hrows : ∀ x ∈ rows, Lemmas.C03.SValOK x)
-    (hsmall : ∀ root, runRows ext fields rows = .ok root → Lemmas.C03.ViewSmall root)
     (h : toMarrow ext fields rows = .ok arrs) :
     arrs.length = fields.length ∧
     ∀ (j : Nat) (f : Field) (a : Arr), fields[j]? = some f → arrs[j]? = some a →
@@ -496,7 +496,7 @@ theorem C03_wf (ext : Ext) (fields : List Field) (rows : List SVal) (arrs : List
   obtain ⟨hw, hlen, _, hcols⟩ := Props.C01.runRows_rows ext fields rows root0 root h0 (hsafe root0 h0) hraw hrun
   have hfacts := root_facts ext fields rows root hmap hschema (Build.push_takeRest ext) hw
     (Lemmas.C03.WFB_StrictDict root hw) hrun
-  have hx := Lemmas.C03.runRows_WFX ext hext fields rows root hrows hrun (hsmall root hrun)
+  have hx := Lemmas.C03.runRows_WFX ext hext fields rows root hrows hrun (Build.WFB_small root hw)
   cases root with
   | struct p len v fs cached next seen =>
     simp only [buildArrays, bind, Except.bind] at hba
@@ -570,81 +570,8 @@ theorem All2_get {α β} {R : α → β → Prop} : ∀ {l1 : List α} {l2 : Lis
     | zero => exact hr
     | succ i => exact hg i (by simpa using h1) (by simpa using h2)
 
-/-- **C01 for `to_marrow`, physical and logical halves composed.**  The returned arrays decode (Arrow reading rules,
-slot by slot, through the packed bitmaps) to columns `cols` of `rows.length` slots each, and the documented value
-(`Spec.interpRow`: records matched by field name, numbers by value …) of the `i`-th input record is exactly the struct
-whose `j`-th field is slot `i` of column `j`.  Coverage is that of R2/R3 (`coveredF`: every builder family except view
-types and dictionaries; `noRaw`: values without raw key/value call streams).
-PARTIAL only in that coverage: the physical half (`toMarrow_decode_state`) holds for every family; what is missing for
-view types and dictionaries is R2 (`Props.C01.push_interp`: the appended row is `interpDT` of the value). -/
-theorem toMarrow_decode_partial (ext : Ext) (fields : List Field) (rows : List SVal) (arrs : List Arr)
-    (hmap : ∀ f ∈ fields, Lemmas.C03.Map2F f) (hschema : ∀ f ∈ fields, Lemmas.C03.SchemaOKF f)
-    (hcov : fields.all Build.coveredF = true)
-    (hsafe : ∀ root0, newRoot fields = .ok root0 → Safe root0)
-    (hraw : ∀ x ∈ rows, Build.noRaw x = true)
-    (h : toMarrow ext fields rows = .ok arrs) :
-    ∃ cols : List (String × List LVal),
-      arrs.map decodeAll = cols.map (fun c => c.2.map .ok) ∧
-      cols.map (·.1) = fields.map (·.name) ∧
-      (∀ c ∈ cols, c.2.length = rows.length) ∧
-      ∀ (i : Nat) (hi : i < rows.length),
-        interpRow ext fields rows[i] = .ok (.struct (LFields.ofList (cols.map fun c => (c.1, c.2.getD i .null)))) := by
-  obtain ⟨root, hrun, rest, hba⟩ := toMarrow_split ext fields rows arrs h
-  have h0 : ∃ root0, newRoot fields = .ok root0 := by
-    simp only [runRows] at hrun
-    cases hr : newRoot fields with
-    | error e => rw [hr] at hrun; cases hrun
-    | ok r0 => exact ⟨r0, rfl⟩
-  obtain ⟨root0, h0⟩ := h0
-  have hs0 := hsafe root0 h0
-  obtain ⟨hw, _, _, _⟩ := Props.C01.runRows_rows ext fields rows root0 root h0 hs0
-    (fun x hx => Build.noRaw_rawOK x (hraw x hx)) hrun
-  obtain ⟨hall, hcols, p, fs, cached, next, seen, rfl, hdec⟩ :=
-    Props.C01.runRows_interp ext fields rows root0 root hcov h0 hs0 hraw hrun
-  have hfacts := root_facts ext fields rows _ hmap hschema (Build.push_takeRest ext) hw
-    (Lemmas.C03.WFB_StrictDict _ hw) hrun
-  simp only [buildArrays, bind, Except.bind] at hba
-  cases hfin : finishFields ext fs with
-  | error e => rw [hfin] at hba; cases hba
-  | ok afs =>
-    rw [hfin] at hba
-    simp only [pure, Except.pure, Except.ok.injEq, Prod.mk.injEq] at hba
-    obtain ⟨rfl, _⟩ := hba
-    have hd := Lemmas.C03.finishFields_decode ext fs afs
-      (Lemmas.C03.WFL_WFBs fs _ (Lemmas.C03.WFB_struct hw).2) (Lemmas.C03.Faithful_struct hfacts.2.1) hfin
-    refine ⟨decCols fs, ?_, ?_, ?_, ?_⟩
-    · rw [List.map_map]
-      have := ArrFields_toList_decode afs
-      have e : (decodeAll ∘ fun (x : FieldMeta × Arr) => x.snd) = fun ma => decodeAll ma.snd := rfl
-      rw [e, this, hd, List.map_map]
-      rfl
-    · -- names: from `BuiltFor`
-      have hb := hfacts.1
-      simp only [Lemmas.C03.BuiltFor] at hb
-      obtain ⟨fields', hfe, _, hbl⟩ := hb
-      simp only [DataType.struct.injEq] at hfe
-      subst hfe
-      exact decCols_names fs _ hbl
-    · intro c hc
-      exact hcols c.2 (by simp only [decRoot, List.mem_map]; exact ⟨c, hc, rfl⟩)
-    · intro i hi
-      obtain ⟨hl, hg⟩ := All2_get hall
-      have h1 : i < (dec (B.struct p rows.length none fs cached next seen)).length := by rw [hl]; exact hi
-      have := hg i h1 hi
-      rw [this]
-      congr 1
-      simp only [hdec, List.getElem_map, List.getElem_range, Build.rowAt]
-where
-  decCols_names : ∀ (fs : BL) (fl : List Field), Lemmas.C03.BuiltForL (Fields.ofList fl) fs →
-      (decCols fs).map (·.1) = fl.map (·.name)
-    | .nil, [], _ => rfl
-    | .nil, _ :: _, h => by simp [Fields.ofList, Lemmas.C03.BuiltForL] at h
-    | .cons _ _ _, [], h => by simp [Fields.ofList, Lemmas.C03.BuiltForL] at h
-    | .cons b m r, f :: fr, h => by
-      simp only [Fields.ofList, Lemmas.C03.BuiltForL] at h
-      obtain ⟨rfl, _, hr⟩ := h
-      simp only [decCols, List.map_cons, decCols_names r fr hr]
-      cases f; rfl
+/-! `toMarrow_decode_state` composed with R3 (`Props.C01.runRows_interp`) is the end-to-end statement of C01,
+`Props.C01.C01_build_decode` (Props/C01.lean; it supersedes the former `toMarrow_decode_partial` of this file). -/
 
 /-! ### a worked instance: the hypotheses are jointly satisfiable on a real run
 
@@ -680,7 +607,7 @@ example : ∀ arrs, toMarrow {} exFields exRows = .ok arrs →
     arrs.length = exFields.length ∧ ∀ (j : Nat) (f : Field) (a : Arr), exFields[j]? = some f →
       arrs[j]? = some a → WF f a = true ∧ (decodeAll a).length = exRows.length := by
   intro arrs h
-  refine C03_wf {} exFields exRows arrs ?_ ?_ ?_ ?_ ?_ ?_ ?_ h
+  refine C03_wf {} exFields exRows arrs ?_ ?_ ?_ ?_ ?_ ?_ h
   · simp [exFields, Lemmas.C03.Map2F, Lemmas.C03.Map2]
   · simp [exFields, Lemmas.C03.SchemaOKF, Lemmas.C03.SchemaOK]
   · intro root0 h0
@@ -694,7 +621,5 @@ example : ∀ arrs, toMarrow {} exFields exRows = .ok arrs →
   · decide
   · simp [exRows, Lemmas.C03.SValOK, Lemmas.C03.SFieldsOK, Lemmas.C03.SValsOK, Lemmas.C03.ScalarOK, IntTy.inRange,
       IntTy.min, IntTy.max]
-  · intro root hr; rw [exRun] at hr; cases hr
-    simp [exRoot, Lemmas.C03.ViewSmall, Lemmas.C03.ViewSmallL]
 
 end SaModel.Props.C03
